@@ -8,17 +8,18 @@ import numpy as np
 
 from sim import filgen
 from sim import transforms as T
-from sim.core import open_reader, SimLivelock, Violation
+from sim.core import nint, open_reader, SimLivelock, Violation
 from sim.disk import SimDisk
 
 from .c02 import after_list_removal  # noqa: F401
 from .c07 import blocks_of
 
 ID = "C06"
+VARY_ARGFORM = True  # integer call arguments also arrive as numpy integer scalars
 GUARD_KERNELS = True
 NAMES = ["collapse", "bandpass", "read_chan", "dedisperse", "compute_stats", "compute_stats_basic"]
 SHRINK_LISTS = ("ops", "faults", "pre", ("files", "nsamps"))
-SHRINK_SIMPLE = {"earlier": None}
+SHRINK_SIMPLE = {"earlier": None, "argform": "int"}
 SHRINK_MIN = {"nchans": 1, "nbits": 1, "gulp": 1}
 
 
@@ -209,7 +210,7 @@ def two_pass(X):
 
 
 def call(name, reader, params, gulp, start, nsamps, allocator=None):
-    kw = {"gulp": gulp, "start": start, "nsamps": nsamps, "quiet": True}
+    kw = {"gulp": nint(gulp), "start": nint(start), "nsamps": nint(nsamps), "quiet": True}
     if gulp is None:
         del kw["gulp"]
     if allocator is not None:
